@@ -4,7 +4,6 @@ from __future__ import annotations
 from ..core import Ctx, HarnessError, Result
 from ..sched.mon_c10 import (
     MsgProfile, StaleGuard, collect_counters, reset_counters)
-from ..sched.monitors import PoolInvariants
 from ..sched.run import explore_all, replay_violation, result_from
 
 LEVEL = 'model_checking'
@@ -38,14 +37,14 @@ def catalogue(tier: str):
     rows = [
         ('one', 'a', {}, ('a',), 'all', 2, None),
         ('one-retry', 'a', {'a': R1}, ('a',), 'all', 1, None),
-        ('custom', 'a:x => b', {'a': dict(O1)}, ('a',), 'all', 1, None),
+        ('custom1', 'a:x', {'a': dict(O1)}, ('a',), 'all', 1, None),
         ('chain', 'a => b', {}, (), 'all', 1, None),
     ]
     if tier == 'thorough':
         rows += [
             ('one-retry-b2', 'a', {'a': R1}, ('a',), 'all', 2, None),
-            ('custom-b2', 'a:x => b', {'a': dict(O1)}, ('a',), 'all', 2,
-             None),
+            ('custom', 'a:x => b', {'a': dict(O1)}, ('a',), 'all', 1, None),
+            ('custom1-b2', 'a:x', {'a': dict(O1)}, ('a',), 'all', 2, None),
             ('custom-retry', 'a:x => b', {'a': {**O1, **R1}}, ('a',), 'any',
              1, None),
             ('chain-fail', 'a => b', {}, ('a', 'b'), 'all', 2, None),
@@ -70,7 +69,7 @@ def make_factory(spec, monitors=None):
         return MsgProfile(
             spec, budget=spec['budget'], outcomes=outcomes,
             emit=spec['emit'],
-            monitors=monitors or [StaleGuard, PoolInvariants], **kw)
+            monitors=monitors or [StaleGuard], **kw)
     return factory
 
 
@@ -85,7 +84,7 @@ def run(ctx: Ctx) -> Result:
     st = explore_all(
         ctx, [make_factory(s) for s in specs],
         max_states=ctx.pick(30000, 400000),
-        max_seconds=ctx.pick(110, 1700))
+        max_seconds=ctx.pick(900, 3000))
     cnt = collect_counters()
     if not st.violations and not st.error:
         missing = [k for k in NEED if not cnt.get(k)]
